@@ -90,6 +90,29 @@ def run_case(case, extra):
         rec = w.api_sync(w.nodes[0], "StartSyncExecution", {"stateMachineArn": arn, "name": "e", "input": text})
         ok = rec["status"] == 200
         findings += verdict(delta <= 0, ok, place, len(text), L, "%s %s" % (rec["status"], (rec["body"] or "")[:80]))
+    elif place == "callback-output-discarded":
+        # SendTaskSuccess output of exactly the sizes around L in each text shape, for a Task that keeps nothing of it
+        # (ResultSelector): what the API accepted (200) must then also complete the task - the API's check and the
+        # engine's own check of the relayed reply have to agree on the text that is measured
+        n = L + delta
+        d = {"StartAt": "T", "States": {"T": {"Type": "Task", "Resource": "arn:aws:states:local::rpcmessage:invoke.waitForTaskToken",
+                                             "Parameters": {"FunctionName": F + "cb", "Payload": {"token.$": "$$.Task.Token"}},
+                                             "ResultSelector": {"kept": 1}, "TimeoutSeconds": 30, "End": True}}}
+        w = World(1, execution_ttl=600, script={"cb": [{"noreply": True}]}, functions=["cb"])
+        arn = w.create_machine("m", d)
+        ex = w.start(arn, {"k": 1}, name="e")
+        w.run_until(lambda: len(w.workers.requests) > 0, limit=10, what="callback request")
+        token = w.workers.requests[0]["payload"]["token"]
+        text = text_of(n, shape)
+        rec = w.api_sync(w.nodes[0], "SendTaskSuccess", {"taskToken": token, "output": text})
+        api_ok = rec["status"] == 200
+        findings += verdict(delta <= 0, api_ok, "send-task-success-output", len(text), L, "%s %s" % (rec["status"], (rec["body"] or "")[:80]))
+        w.run_quiescent(limit=700)
+        t = terminal(w, ex)
+        if api_ok and (t is None or t["status"] != "SUCCEEDED"):
+            findings.append({"property": PROP, "rule": "accepted-callback-did-not-complete-task", "witness": shape,
+                             "detail": "SendTaskSuccess with an output text of %d characters (%s) answered 200, the task then "
+                                       "ended %r" % (len(text), shape, t and (t["status"], t.get("error")))})
     elif place in ("pass-output", "task-reply", "task-output-via-resultselector", "callback-output"):
         n = L + delta
         script = {}
@@ -255,7 +278,26 @@ def run_case(case, extra):
                 findings.append({"property": PROP, "rule": "name-boundary", "witness": "execution-name",
                                  "detail": "name %r (len %d) %s" % (nm, len(nm), "accepted" if ok else "refused")})
         w.run_quiescent(limit=50)
-        info["names"] = len(cases) * 2
+        # the Name parameter of a child launch is a name too (it never passes the API's validator)
+        child = w.create_machine("kid", json.loads(d))
+        launcher = w.create_machine("launcher", {"StartAt": "L", "States": {"L": {
+            "Type": "Task", "Resource": "arn:aws:states:local::states:startExecution",
+            "Parameters": {"StateMachineArn": child, "Name.$": "$.name", "Input": {}}, "End": True}}})
+        for k, (nm, good) in enumerate(cases):
+            if nm == "":
+                continue        # (an empty Name parameter means "not given": the default name is used)
+            w.start(launcher, {"name": nm}, name="l%d" % k)
+        w.run_quiescent(limit=100)
+        started = set(e["body"]["detail"].get("name") for e in w.subscriber.events
+                      if e["body"]["detail"].get("stateMachineArn") == child)
+        for k, (nm, good) in enumerate(cases):
+            if nm == "":
+                continue
+            if (nm in started) != good:
+                findings.append({"property": PROP, "rule": "name-boundary", "witness": "child-execution-name",
+                                 "detail": "child launch with Name %r (len %d) %s" % (
+                                     nm, len(nm), "started a child execution" if nm in started else "was refused")})
+        info["names"] = len(cases) * 3
     elif place == "history-limit":
         # counting loop: each iteration logs 4 events (Pass entered/exited, Choice entered/exited)
         d = {"StartAt": "Inc", "States": {
@@ -330,6 +372,7 @@ def main(argv):
     cases = [(p, d) for p in PLACES for d in DELTAS] + [("definition-empty", 0), ("names", 0)]
     cases += [("%s:%s" % (p, sh), d) for p in ("start-execution-input", "start-sync-execution-input", "callback-output", "task-reply")
               for sh in SHAPES for d in DELTAS]
+    cases += [("callback-output-discarded:%s" % sh, d) for sh in ["string"] + SHAPES for d in DELTAS]
     cases += [("first-state-after-compact-input:%s" % st, d) for st in ("Pass", "Choice", "Choice-default", "Wait",
                                                                         "Succeed", "Task", "Parallel", "Map")
               for d in (-1000, -3, -2, -1, 0)]
